@@ -263,12 +263,68 @@ def no_capture_lemma(ex):
                     ensures=[], raises={'ConnectionClosedError': None}, raises_only=['ConnectionClosedError'], options={'recv_closed_check': False})
 
 
+def request_state_lemma(ex):
+    """L4: what a worker request carries: RemoteWorker.__getstate__(remote=True) on the parent side returns a COPY of the object's dictionary in which everything
+    that must not travel is blanked (_child, _socket, _startup_sync), the work is carried as one pickled payload (unless the worker belongs to a context) and
+    the marker _from_remote_parent is set - and the parent's own object is left exactly as it was (its socket and thread are still needed)"""
+    from pyvc import extlib
+    repo = ex.repo
+
+    def setup(ex_, env):
+        I = ex_.interp
+        from . import workers as Wk
+        if 'Proc' not in ex_.abs_classes:
+            ex_.abs_classes['Proc'] = Wk.proc_class()
+        child = VAbs('Proc', Val.v_str(z3.IntVal(smt.str_code('<front-end thread>'))))
+        sock = common.new_chan(ex_, 'Conn', 'data')
+        sync = common.new_event(ex_)
+        ctxv = ex_.fresh('context', Val)
+        attrs = {'_remote_side': VBool(False), '_is_backend': VBool(False), '_context': VSym(ctxv), '_target': I.sym('target'), '_args': I.sym('args'),
+                 '_kwargs': I.sym('kwargs'), '_socket': sock, '_child': child, '_startup_sync': sync, '_name': I.sym('name'), '_from_remote_parent': VBool(False),
+                 '_payload': NONE, '_started': VBool(True), '_dead': VBool(False), '_result': NONE, '_user_state': I.sym('state0')}
+        env['self'] = ex_.alloc(HObj(repo.cls(RW), attrs))
+        env['remote'] = VBool(True)
+        env['attrs0'] = dict(attrs)
+        env['ctxv'] = VSym(ctxv)
+        ex_.ghost['dumps_raises'] = []
+
+    def post(c):
+        ex_ = c.ex
+        r = c.env['result']
+        if not (isinstance(r, VRef) and isinstance(ex_.heap[r.addr], HDict)):
+            return z3.BoolVal(False)
+        st = ex_.heap[r.addr].items
+        a0 = c.env['attrs0']
+        a1 = ex_.heap[c.env['self'].addr].attrs
+        same_self = set(a1) == set(a0) and all(a1[k] is a0[k] for k in a0)
+        blanked = all(st.get(k, 'missing') is NONE for k in ('_child', '_socket', '_startup_sync'))
+        dropped = not any(k in st for k in ('_target', '_args', '_kwargs'))
+        marked = isinstance(st.get('_from_remote_parent'), VBool) and z3.is_true(smt.simp(st['_from_remote_parent'].e))
+        rest = all(k in st and st[k] is a0[k] for k in a0 if k not in ('_child', '_socket', '_startup_sync', '_target', '_args', '_kwargs', '_from_remote_parent', '_payload'))
+        structural = z3.BoolVal(bool(same_self and blanked and dropped and marked and rest and r.addr != c.env['self'].addr))
+        work = Val.v_tup(smt.mk_list([lower(a0['_target'], ex_), lower(a0['_args'], ex_), lower(a0['_kwargs'], ex_)]))
+        pl = st.get('_payload')
+        no_ctx = c.env['ctxv'].t == Val.v_none
+        if isinstance(pl, VBytes):
+            payload_ok = z3.And(no_ctx, pl.e == extlib.pickle_b(work))
+        else:
+            payload_ok = z3.And(z3.Not(no_ctx), z3.BoolVal(pl is NONE))
+        return z3.And(structural, payload_ok)
+    post.__doc__ = ('the state sent to the server is a copy of the dictionary with _child/_socket/_startup_sync blanked, _target/_args/_kwargs replaced by one payload '
+                    '= dumps((target, args, kwargs)) exactly when the worker has no context, _from_remote_parent set, everything else as it is; the parent object itself is unchanged')
+    return Contract(RW + '.__getstate__', lid='L4', name='C11.L4 what a worker request carries: RemoteWorker.__getstate__(remote=True) scrubs a copy, never the parent object',
+                    params={'self': ('const', None), 'remote': ('const', None)}, self_class=RW, setup=setup, ensures=[post], raises={}, raises_only=[],
+                    options={'recv_closed_check': False})
+
+
 def build(ex):
     server.install(ex)
-    return [(build_run_contract(ex, ex.prop), None), (no_capture_lemma(ex), None)]
+    return [(build_run_contract(ex, ex.prop), None), (no_capture_lemma(ex), None), (request_state_lemma(ex), None)]
 
 
 MUTANTS = [
+    ('pyworkers/remote.py', "            state = self.__dict__.copy()\n            state['_from_remote_parent'] = True", "            state = self.__dict__\n            state['_from_remote_parent'] = True", 'sending a worker scrubs the parent object itself (its socket and thread are lost)'),
+    ('pyworkers/remote.py', "            state['_socket'] = None # _socket will be injected by the server on the remote side\n", "", 'the parent\'s data socket travels with the request'),
     ('pyworkers/remote.py', "            if incoming not in ready:\n                incoming.close()\n                raise ConnectionClosedError()\n", "", 'the control accept is entered although only the data socket became readable'),
     ('pyworkers/remote.py', "            ready, _, _ = select.select([incoming, self._socket], [], [])\n", "            ready, _, _ = select.select([incoming], [], [])\n            ready = [incoming]\n", 'the wait for the control connection no longer watches the data socket'),
     ('pyworkers/remote_server.py', "                        except ConnectionClosedError:\n                            logger.info('Client disconnected before child was successfully created')\n                            continue", "                        except KeyError:\n                            continue", 'worker payload receive no longer guarded'),
